@@ -148,7 +148,10 @@ pub fn run_script(prog: &str, reference: &[u16], script: &[Op], schedule: &[usiz
         out.violations.push((format!("dap:{}:{}", op.kind(), inv), what));
     };
 
+    #[allow(unused_assignments)]
+    let mut stepped_while_running = false;
     'script: for op in script {
+        stepped_while_running = false;
         if std::env::var("C19_DEBUG").is_ok() {
             eprintln!("[c19] op {:?} step {}", op, sched.step());
         }
@@ -159,9 +162,24 @@ pub fn run_script(prog: &str, reference: &[u16], script: &[Op], schedule: &[usiz
         let stopped_now = matches!(before.state, MachineRunningState::Stopped(_));
         match op {
             Op::Continue | Op::Next | Op::StepIn | Op::StepOut => {
-                if !stopped_now || !is_connected(&machine) {
+                // a step request may also arrive while the machine runs freely ("any timing of client requests"):
+                // it then has to produce a consistent stop like a pause; `continue` needs a stopped machine
+                let running_now = before.state == MachineRunningState::Running;
+                let step = *op != Op::Continue;
+                if !(stopped_now || (step && running_now)) || !is_connected(&machine) {
                     out.ill_formed = true;
                     break 'script;
+                }
+                stepped_while_running = step && running_now;
+                // the machine may have stopped (breakpoint) without any request observing it: a step starts from
+                // where the machine is
+                if stopped_now {
+                    if let Some(p) = find_pos(pos, before.pc) {
+                        pos = p;
+                    }
+                }
+                if std::env::var("C19_DEBUG").is_ok() {
+                    eprintln!("[c19] before {:?}: state {:?} pc ${:04x} -> stepped_while_running {}", op, before.state, before.pc, stepped_while_running);
                 }
                 // stepping past the final BRK ends the test inside the session thread: not a session a client has
                 if before.pc == *reference.last().unwrap() {
@@ -169,6 +187,11 @@ pub fn run_script(prog: &str, reference: &[u16], script: &[Op], schedule: &[usiz
                     break 'script;
                 }
                 // stepOut outside a subroutine: the statement does not say what it does
+                // (from a running machine the position is not known: stepIn and next only)
+                if *op == Op::StepOut && running_now {
+                    out.ill_formed = true;
+                    break 'script;
+                }
                 if *op == Op::StepOut {
                     if let Some(p) = find_pos(pos, before.pc) {
                         if step_out_index(reference, p) == p {
@@ -300,6 +323,8 @@ pub fn run_script(prog: &str, reference: &[u16], script: &[Op], schedule: &[usiz
             match find_pos(pos, t2.pc) {
                 Some(np) => {
                     let expected = match op {
+                        // (a step that was requested while the machine ran starts from wherever it was)
+                        _ if stepped_while_running => None,
                         Op::StepIn => Some(pos + 1),
                         Op::Next => Some(next_index(reference, pos)),
                         Op::StepOut => Some(step_out_index(reference, pos)),
